@@ -187,9 +187,41 @@ func (e *Engine) mergeImplementerContracts() {
 	}
 }
 
+// normalizeKey expands a short package name in a contract key ("net.EndPoint.Close",
+// "(*net.Header).Read") to the import path of the loaded package of that name.
+func (e *Engine) normalizeKey(k string, filePkg *types.Package) string {
+	prefix := ""
+	rest := k
+	if strings.HasPrefix(rest, "(*") {
+		prefix, rest = "(*", rest[2:]
+	} else if strings.HasPrefix(rest, "(") {
+		prefix, rest = "(", rest[1:]
+	}
+	i := strings.Index(rest, ".")
+	if i <= 0 || strings.Contains(rest[:i], "/") {
+		return k
+	}
+	name := rest[:i]
+	if filePkg != nil {
+		// the contract file's own imports decide what a short name means
+		for _, imp := range filePkg.Imports() {
+			if imp.Name() == name {
+				return prefix + imp.Path() + rest[i:]
+			}
+		}
+	}
+	if p := e.pkgByName[name]; p != nil && p.Path() != name {
+		if _, std := e.pkgByPath[name]; !std {
+			return prefix + p.Path() + rest[i:]
+		}
+	}
+	return k
+}
+
 func (e *Engine) addSpecFile(sf *SpecFile, pkg *types.Package) {
 	e.specFiles = append(e.specFiles, sf)
 	for _, c := range sf.Contracts {
+		c.Key = e.normalizeKey(c.Key, pkg)
 		switch c.Kind {
 		case "func":
 			if _, dup := e.contracts[c.Key]; dup {
